@@ -131,7 +131,7 @@ def run(tier, seed):
         "rule": "the FAC family (flat / shared / parent-child / extra components x 1-2 workplaces with capacities 1/2, conveyor link, facility layouts) plus 2-3 components of space 0.5/1 competing "
         "for two or three workplaces with capacities over {0.5,1,1.5,2}, conveyor none/chain/fan-in, both workplace rules, FS link or none, a component carrying two tasks, an assembly whose two children are processed in a parts area before the parent is docked, and two components with chained cut->weld tasks "
         "over four workplaces with every subset of the four possible conveyor links declared, and two copied lines whose workplaces and tasks carry the same names (IDs differ); each explored over "
-        "absence answers (first three facilities, project) up to horizon H with <= D non-default answers; invariants on live state at every phase, on the placement events logged by the harness' "
+        "absence answers (first three facilities, project; slices restarted with each flag pair and continued through JSON in a new project) up to horizon H with <= D non-default answers; invariants on live state at every phase, on the placement events logged by the harness' "
         "component/workplace subclasses, and on the logs; non-trivial = distinct (model, workplace, placed set) and (model, component, from, to) moves",
         "bounds": {"H": H, "D": D, "base_models": len(its)},
         "assumptions": ["a re-placement at the same workplace (remove + set within one allocation) is not counted as a move"],
